@@ -703,6 +703,10 @@ def rule_arg1(ctx: Ctx) -> RuleResult:
                         if dn in ("set", "frozenset", "sorted", "reversed", "dict.fromkeys") and c.args and isinstance(c.args[0], ast.Name) \
                                 and c.args[0].id in (set(params) | alias):
                             col = (c, dn)
+                if col is not None and col[1] == "reversed" and sum(
+                        1 for c in ast.walk(fn) if isinstance(c, ast.Call) and ((dotted_name(c.func) == "reversed") or (
+                            isinstance(c.func, ast.Attribute) and c.func.attr == "reverse"))) > 1:
+                    raise AnalysisError("%s: %s reverses a sequence argument more than once; ARG-1 does not count reversals" % (m.where(s), fn.name))
                 if col is not None and (s.targets[0].id in params or s.targets[0].id in alias):
                     r.ob(False, lambda s=s, col=col, fn=fn: Finding(
                         "ARG-1", "%s::%s{%s collapsed}" % (rel, fn.name, col[0].args[0].id), m.where(s),
